@@ -922,7 +922,13 @@ def make_preempt_tracer(env):
             if budget[0] > 0 and rng.random() < p:
                 budget[0] -= 1
                 sched.probe('line_preemptions')
-                sched.switch_point()
+                if sched.current is sched.main and rng.random() < 0.25:
+                    # the main thread loses the CPU for long: everybody else runs until
+                    # nobody can any more
+                    sched.probe('line_preemptions_long')
+                    sched.block(lambda: not sched.others_can_run(), 'pre-empted')
+                else:
+                    sched.switch_point()
         return local
 
     noise = bool(env.knobs.get('global_random_noise'))
